@@ -70,6 +70,33 @@ def run(ctx):
                 ctx.decide(ok, 'R-DOM', 'D4', f, s, 'write-gate',
                            f'{f.qualname}: the writeability check dominates the store',
                            detail='store reachable without check_arraywriteable')
+            # D4b: the gate honours the mode of the *open context*: open_array(accessmode='r+') on a handle in mode 'r'
+            # is the documented way to write, so with the handle mode 'r' and a writeable map the gate must let the store
+            # through (path conditions: mode tests folded with 'r', writeable-flag tests with True)
+            from ..rules import eval_mode_test, eval_writeable_test
+            from ..pathcond import runs_under
+            oa = ctx.repo.func('Array.open_array', required=False)
+            if oa is not None and 'accessmode' in oa.params:
+                def ft(t):
+                    v = eval_writeable_test(t, True)
+                    return v if v is not None else eval_mode_test(t, 'r')
+                blocked = []
+                for s_ in stores:
+                    # interprocedural: the store itself and every gate function called before it
+                    if runs_under(f, s_, ft) is False:
+                        blocked.append('the store is unreachable')
+                for node, cal in ctx.E.callees(f):
+                    if cal.cls is f.cls and GA.is_gate_func(cal):
+                        from ..pathcond import outcome_under
+                        normal, raised = outcome_under(cal, ft)
+                        if normal is False:
+                            blocked.append(f'{cal.qualname} always raises')
+                ctx.decide(not blocked, 'R-SIB', 'D4', f, stores[0] if stores else None, 'write-gate-honours-context-mode',
+                           f'{f.qualname}: inside open_array(accessmode=\'r+\') the write gate lets the assignment through '
+                           f'although the handle itself is in mode \'r\' (same result inside and outside a context)',
+                           detail='with handle mode \'r\' and a writeable (r+) map ' + '; '.join(blocked) + ': the gate tests the '
+                                  'handle\'s mode instead of the open map, so the documented per-context override raises OSError '
+                                  'and nothing is written')
         else:
             # the value returned is a copy made inside the block (decided by R-ESC below);
             # additionally the copy is taken from the subscript itself
